@@ -16,7 +16,7 @@ from . import proto_common as pc
 CLAUSES = {"Sound", "Reflexive", "NeverBottom", "ObjectTop", "UnionLeft", "UnionRight", "HistoryIndependent"}
 DEV_KEYS = {"protocol-property-member-untyped", "none-valued-attribute-satisfies-protocol-member",
             "int-accepted-for-protocol-via-float-promotion", "runtime-protocol-literal-accepted-by-isinstance",
-            "protocol-cache-poisoned-by-recursion-guard"}
+            "literal-callable-object-signature-unknown", "protocol-cache-poisoned-by-recursion-guard"}
 # cfg -> invariant TLC must report as violated (sensitivity self-tests of the model)
 SENSITIVITY = {
     "Protocols.sens_skipabc.cfg": ("InvPSound", "member collection that skips bases without _is_protocol (ABC bases) is unsound"),
@@ -24,6 +24,7 @@ SENSITIVITY = {
     "Protocols.sens_nodev_noneany.cfg": ("InvPSound", "deviation class none-valued-attribute is not vacuous"),
     "Protocols.sens_nodev_artretry.cfg": ("InvPSound", "deviation class float-promotion retry is not vacuous"),
     "Protocols.sens_nodev_rescue.cfg": ("InvPSound", "deviation class literal isinstance rescue is not vacuous"),
+    "Protocols.sens_nodev_callany.cfg": ("InvPSound", "deviation class literal callable object is not vacuous"),
     "Protocols.hist_strict.cfg": ("InvPHistIndepStrict", "the poisoned positive cache breaks history independence on the model"),
     "Protocols.hist_keyleft.cfg": ("InvPHistIndep", "a positive cache keyed by the protocol only (pre-73ce54b) is caught"),
 }
@@ -33,12 +34,28 @@ def _tlc(module: str, cfg: str, workers: int = 4, timeout: int = 1500) -> core.T
     return core.run_tlc(module, cfg, workers=workers, timeout=timeout)
 
 
+NBATCH = 8
+
+
 def _adjudicate(check: core.Check, obs: list[dict]) -> dict:
+    """tid = index in obs; the observations are dealt round-robin by weight (number of steps) into NBATCH batches so that
+    the parallel TLC runs finish together."""
     for i, o in enumerate(obs):
         o["tid"] = i
-    per = max(8, (len(obs) + 5) // 6)
-    verdicts, stats = core.adjudicate("ProtocolsTrace", "ProtocolsTrace.cfg", obs, batch=per, parallel=6, timeout=1500)
-    check.add_trace_stats(stats)
+    ranked = sorted(obs, key=lambda o: -len(o.get("steps", [0])))
+    bins: list[list[dict]] = [[] for _ in range(NBATCH)]
+    loads = [0] * NBATCH
+    for o in ranked:
+        j = loads.index(min(loads))
+        bins[j].append(o)
+        loads[j] += len(o.get("steps", [0])) + 1
+    verdicts: dict = {}
+    with ThreadPoolExecutor(NBATCH) as ex:
+        futs = [ex.submit(core.adjudicate, "ProtocolsTrace", "ProtocolsTrace.cfg", b, batch=len(b), timeout=1500) for b in bins if b]
+        for f in futs:
+            v, stats = f.result()
+            check.add_trace_stats(stats)
+            verdicts.update(v)
     return verdicts
 
 
@@ -46,7 +63,7 @@ def _judge(check: core.Check, obs: list[dict], label: str) -> dict:
     raised = [o for o in obs if o["kind"] == "raised"]
     good = [o for o in obs if o["kind"] != "raised"]
     for o in raised:
-        check.violation(core.canon(o["case"]), "PublicApiRaised", {"case": o["case"], "exc": o["exc"], "source": label})
+        check.violation(core.canon(o["case"]), "PublicApiRaised", {"case": o["case"], "exc": o["exc"], "source": label, "slice": "protocols"})
     verdicts = _adjudicate(check, good)
     counts: dict[str, int] = {}
     for tid, vs in verdicts.items():
@@ -67,11 +84,11 @@ def _judge(check: core.Check, obs: list[dict], label: str) -> dict:
             if v.startswith("viol:"):
                 if v[5:] not in CLAUSES:
                     raise core.MachineryError(f"unknown clause {v}")
-                check.violation(core.canon(keycase), v[5:], {"case": case, "observed": o if o["kind"] != "phist" else step, "source": label})
+                check.violation(core.canon(keycase), v[5:], {"case": case, "observed": o if o["kind"] != "phist" else step, "source": label, "slice": "protocols"})
             elif v.startswith("dev:"):
                 if v[4:] not in DEV_KEYS:
                     raise core.MachineryError(f"unknown deviation class {v}")
-                check.violation(v[4:], v[4:], {"case": case, "source": label})
+                check.violation(v[4:], v[4:], {"case": case, "source": label, "slice": "protocols"})
             elif v.startswith("drift:"):
                 check.drift({"verdict": v, "case": keycase, "observed": o if o["kind"] != "phist" else step, "source": label})
             elif v.startswith("oracle:"):
@@ -95,12 +112,16 @@ def selftest_trace(check: core.Check) -> None:
         ({"kind": "phist", "steps": [step(T("P2"), T("P2"), False)]}, {"drift:protocol_can_assign@1", "viol:Reflexive@1"}),
         ({"kind": "phist", "steps": [step(T("P2"), never, False)]}, {"drift:protocol_can_assign@1", "viol:NeverBottom@1"}),
         ({"kind": "phist", "steps": [step(T("object"), T("P2"), False)]}, {"drift:protocol_can_assign@1", "viol:ObjectTop@1"}),
-        ({"kind": "phist", "steps": [step(T("P1"), {"k": "union", "ms": [T("K_m"), T("K_")]}, True, parts=[True, False]),
-                                     step(T("P1"), T("K_m"), True), step(T("P1"), T("K_"), False)]},
-         {"drift:protocol_can_assign@1", "viol:Sound@1", "viol:UnionLeft@1"}),
-        ({"kind": "phist", "steps": [step({"k": "union", "ms": [T("P2"), T("P1")]}, T("K_m"), False, parts=[False, True]),
-                                     step(T("P2"), T("K_m"), False), step(T("P1"), T("K_m"), True)]},
-         {"drift:protocol_can_assign@1", "viol:UnionRight@1"}),
+        ({"kind": "phist", "steps": [step(T("P1"), T("K_m"), True), step(T("P1"), T("K_"), False),
+                                     step(T("P1"), {"k": "union", "ms": [T("K_m"), T("K_")]}, True, parts=[True, False])]},
+         {"drift:protocol_can_assign@3", "viol:Sound@3", "viol:UnionLeft@3"}),
+        ({"kind": "phist", "steps": [step(T("P2"), T("K_m"), False), step(T("P1"), T("K_m"), True),
+                                     step({"k": "union", "ms": [T("P2"), T("P1")]}, T("K_m"), False, parts=[False, True])]},
+         {"drift:protocol_can_assign@3", "viol:UnionRight@3"}),
+        # the poisoned cache showing through a union law is the cache deviation, not a law violation
+        ({"kind": "phist", "steps": [step(T("PQ2"), T("KQ"), False), step(T("PQ1"), T("KQ"), False),
+                                     step({"k": "union", "ms": [T("PQ2"), T("PQ1")]}, T("KQ"), True, parts=[False, False])]},
+         {"dev:protocol-cache-poisoned-by-recursion-guard@3"}),
         # a verdict that depends on the history and is not the known cache deviation
         ({"kind": "phist", "steps": [step(T("P1"), T("K_m"), True, fresh=True), step(T("P1"), T("K_"), True, fresh=False)]},
          {"drift:protocol_can_assign@2", "viol:Sound@2", "viol:HistoryIndependent@2"}),
@@ -150,28 +171,18 @@ def run_slice(check: core.Check, rnd: random.Random) -> None:
     if len(pairs) < 1000:
         raise core.MachineryError("Protocols pairs run emitted suspiciously few pairs")
     check.cov["protocols_table_selftest"] = pc.selftest_table(table, order)
-    # ---- sensitivity of the model + history machine, in parallel
-    hist_cfg = "Protocols.hist2.cfg"
-    with ThreadPoolExecutor(5) as ex:
-        futs = {cfg: ex.submit(_tlc, "ProtocolsEmit", cfg, 2) for cfg in SENSITIVITY}
-        fh = ex.submit(_tlc, "ProtocolsEmit", hist_cfg, 6)
-        fh3 = None if quick else ex.submit(_tlc, "ProtocolsEmit", "Protocols.hist3.cfg", 8, 3000)
-        sens = {cfg: f.result() for cfg, f in futs.items()}
-        hres = fh.result()
-        h3 = fh3.result() if fh3 else None
-    for cfg, (inv, what) in SENSITIVITY.items():
-        if sens[cfg].violated != inv:
-            raise core.MachineryError(f"sensitivity self-test {cfg}: {inv} should be violated ({what}); TLC said {sens[cfg].violated} {sens[cfg].error}")
-    check.cov["protocols_sensitivity"] = {cfg: f"{inv} violated: {what}" for cfg, (inv, what) in SENSITIVITY.items()}
-    core.require_ok(hres, "Protocols history machine")
-    check.add_tlc("protocols:" + hist_cfg, hres)
-    if h3 is not None:
-        check.add_tlc("protocols:Protocols.hist3.cfg", core.require_ok(h3, "Protocols history machine (3 steps)"))
-    selftest_trace(check)
-
-    # ---- real observations
+    # ---- sensitivity of the model + history machine + trace self-test: TLC in background threads while the pairs are
+    #      replayed through the real code
     import pyanalyze.checker  # noqa: F401  (imported before the workers fork)
 
+    hist_cfg = "Protocols.hist2.cfg"
+    ex = ThreadPoolExecutor(6)
+    fh = ex.submit(_tlc, "ProtocolsEmit", hist_cfg, 6)
+    futs = {cfg: ex.submit(_tlc, "ProtocolsEmit", cfg, 2) for cfg in SENSITIVITY}
+    fself = ex.submit(selftest_trace, check)
+    fh3 = None if quick else ex.submit(_tlc, "ProtocolsEmit", "Protocols.hist3.cfg", 8, 3000)
+
+    # ---- real observations
     # (1) every emitted pair: one history per expected type A, in the order TLC emitted the pairs, through one new Checker
     by_a: dict[str, list[dict]] = {}
     for p in pairs:
@@ -183,47 +194,65 @@ def run_slice(check: core.Check, rnd: random.Random) -> None:
     for p in reversed(pairs):
         by_b.setdefault(core.canon(p["b"]), []).append(p)
     hists += [{"steps": pc.expand_unions(ps), "src": "pairs-by-B"} for ps in by_b.values()]
-    # (2) histories of the positive-cache machine: all in which the model sees a cache effect + a sample of the others,
-    #     plus random histories over the whole space by TLC simulation; each step also gets the verdict of a new Checker
-    emitted = [h["steps"] for h in core.emitted_json(hres)]
-    effect = [h for h in emitted if any(s["r"] != s["rr"] for s in h)]
-    rest = [h for h in emitted if not any(s["r"] != s["rr"] for s in h)]
-    sample = effect + rnd.sample(rest, min(len(rest), 250 if quick else 4000))
-    sim = core.simulate_cases("ProtocolsEmit", "Protocols.histsim.cfg", 60 if quick else 1500, depth=5, seed=check.seed + 11, check=check,
-                              first_num=8)
-    sample += [h["steps"] for h in sim]
-    hsteps = [[{"a": s["a"], "b": s["b"]} for s in h] for h in sample]
-    distinct = {core.canon(s): s for h in hsteps for s in h}
-    fresh_obs = core.pmap(pc.observe_fresh, list(enumerate(distinct.values())), chunk=8)
-    bad = [o for o in fresh_obs if o.get("kind") == "raised"]
-    for o in bad:
-        check.violation(core.canon(o["case"]), "PublicApiRaised", {"case": o["case"], "exc": o["exc"], "source": "fresh"})
-    fresh = {core.canon({"a": o["a"], "b": o["b"]}): o["real"] for o in fresh_obs if o.get("kind") != "raised"}
-    for h in hsteps:
-        if all(core.canon(s) in fresh for s in h):
-            hists.append({"steps": [{**s, "fresh": fresh[core.canon(s)], "nparts": 0} for s in h], "src": "cache-machine"})
-    obs = core.pmap(pc.observe_history, list(enumerate(hists)), chunk=2)
-    n_steps = sum(len(o.get("steps", [])) for o in obs)
+    hists.sort(key=lambda h: -len(h["steps"]))
+    obs = core.pmap(pc.observe_history, list(enumerate(hists)), chunk=1)
     # (3) the visitor: def use(p: A) / use(<B>) for every protocol type A
     protos = [p for p in {core.canon(p["a"]): p["a"] for p in pairs}.values() if p["k"] in ("typed", "generic") and p["c"] in pc.PU.PROTOCOLS]
     bs = list({core.canon(p["b"]): p["b"] for p in pairs}.values())
     snip = core.pmap(pc.observe_snippets, [(0, a, bs) for a in protos], chunk=1)
     snips = [o for part in snip for o in part]
     # (4) the member sets pyanalyze collected, (5) CPython as validation of the oracle
-    members = core.pmap(pc.observe_members, list(enumerate(sorted(pc.PU.PROTOCOLS))), chunk=4)
+    members = core.pmap(pc.observe_members, list(enumerate(sorted(pc.PU.PROTOCOLS))), chunk=2)
     pts = [p for p in protos if p != {"k": "typed", "c": "PG"}]
     objs = [b["o"] for b in bs if b["k"] == "known"]
     rt = [pc.observe_runtime((0, {"o": o, "pt": pt})) for o in objs for pt in pts]
+
+    # (2) histories of the positive-cache machine: all in which the model sees a cache effect + a sample of the others
+    #     (thorough: plus random 4-step histories over the whole space by TLC simulation); each step also gets the verdict
+    #     of a new Checker
+    hres = fh.result()
+    core.require_ok(hres, "Protocols history machine")
+    check.add_tlc("protocols:" + hist_cfg, hres)
+    emitted = [h["steps"] for h in core.emitted_json(hres)]
+    effect = [h for h in emitted if any(s["r"] != s["rr"] for s in h)]
+    rest = [h for h in emitted if not any(s["r"] != s["rr"] for s in h)]
+    sample = effect + rnd.sample(rest, min(len(rest), 150 if quick else 4000))
+    if not quick:
+        sim = core.simulate_cases("ProtocolsEmit", "Protocols.histsim.cfg", 1500, depth=5, seed=check.seed + 11, check=check, first_num=8)
+        sample += [h["steps"] for h in sim]
+    hsteps = [[{"a": s["a"], "b": s["b"]} for s in h] for h in sample]
+    distinct = {core.canon(s): s for h in hsteps for s in h}
+    fresh_obs = core.pmap(pc.observe_fresh, list(enumerate(distinct.values())), chunk=4)
+    for o in fresh_obs:
+        if o.get("kind") == "raised":
+            check.violation(core.canon(o["case"]), "PublicApiRaised", {"case": o["case"], "exc": o["exc"], "source": "fresh"})
+    fresh = {core.canon({"a": o["a"], "b": o["b"]}): o["real"] for o in fresh_obs if o.get("kind") != "raised"}
+    chists = [{"steps": [{**s, "fresh": fresh[core.canon(s)], "nparts": 0} for s in h], "src": "cache-machine"}
+              for h in hsteps if all(core.canon(s) in fresh for s in h)]
+    obs += core.pmap(pc.observe_history, list(enumerate(chists)), chunk=4)
+    n_steps = sum(len(o.get("steps", [])) for o in obs)
+
+    # ---- TLC side results
+    sens = {cfg: f.result() for cfg, f in futs.items()}
+    for cfg, (inv, what) in SENSITIVITY.items():
+        if sens[cfg].violated != inv:
+            raise core.MachineryError(f"sensitivity self-test {cfg}: {inv} should be violated ({what}); TLC said {sens[cfg].violated} {sens[cfg].error}")
+    check.cov["protocols_sensitivity"] = {cfg: f"{inv} violated: {what}" for cfg, (inv, what) in SENSITIVITY.items()}
+    fself.result()
+    if fh3 is not None:
+        check.add_tlc("protocols:Protocols.hist3.cfg", core.require_ok(fh3.result(), "Protocols history machine (3 steps)"))
+    ex.shutdown()
+
     counts = _judge(check, obs + snips + members + rt, "protocols")
     check.evals(n_steps + len(snips) + len(members) + len(rt) + len(fresh_obs))
     check.cov["protocols"] = {
-        "pairs": len(pairs), "histories": len(hists), "history_steps": n_steps, "cache_machine_histories": len(hsteps),
+        "pairs": len(pairs), "histories": len(hists) + len(chists), "history_steps": n_steps, "cache_machine_histories": len(chists),
         "histories_with_model_cache_effect": len(effect), "fresh_checker_pairs": len(fresh_obs), "snippet_calls": len(snips),
         "member_sets": len(members), "runtime_oracle_validations": len(rt), "verdicts": counts,
-        "bounds": "all 28 expected types x 144 offered types (3753 model states) replayed in two different histories each; "
-                  "cache machine: all 2-step histories over the recursive family (22651 states), replayed: every history with a "
-                  "model cache effect + a sample + simulated 4-step histories over the whole space"
-                  + ("" if quick else "; 3-step histories checked on the model"),
+        "bounds": "all 28 expected types x 144 offered types (3753 model states) replayed in two different histories each (by "
+                  "expected type in TLC's order, by offered type in reverse order); cache machine: all 2-step histories over the "
+                  "recursive family (22651 states), replayed: every history with a model cache effect + a sample"
+                  + ("" if quick else "; 3-step histories checked on the model; simulated 4-step histories over the whole space replayed"),
     }
     for o in obs[:: max(1, len(obs) // 2)][:2]:
         if o.get("kind") == "phist":
